@@ -165,6 +165,13 @@ def _run(ck: core.Check, pool):
             tasks.append({"level": "off", "steps": steps, "sel": sel, "seed": 1})
     pending = pool.map_async(_prog_task, tasks, chunksize=4)
 
+    # ---- translate (tie G): who touches a Var's propagated value (the build path must not)
+    try:
+        from translator import vp_value_readers
+
+        ck.cov["value_readers"] = [list(e) for e in vp_value_readers.generate()]
+    except Exception as e:  # noqa: BLE001
+        ck.broken("translator", "vp_value_readers", f"{type(e).__name__}: {str(e)[:200]}")
     # ---- prove
     ck.lean(["SpoxModel.Props.C15"], audit="SpoxModel.Audit.C15")
     if ck.thorough:
